@@ -469,3 +469,8 @@ package schema
 //@ func NewIdentity
 //@   nopanic
 //@   ensures result != nil && isfresh(result) && result.Module == mod && result.Namespace == namespace && result.Val == val && result.Value == value
+//@ func NewMustContext
+//@   nopanic
+//@   ensures result.WhenAndMustContext.Mach == mach
+//@ func NewWhenContext
+//@   nopanic
